@@ -9,8 +9,8 @@ import (
 
 func init() {
 	register(&propDef{
-		id:  "C14",
-		run: runC14,
+		id:          "C14",
+		run:         runC14,
 		explanation: "Static analysis of the in-memory buffer's lock discipline and bookkeeping shape: (1) guarded-by — kvData, nodeData, n, kvSize, maxHeight are read under mu (R or W) and written only under mu.Lock; prevNode is touched only under mu.Lock; the search helpers and the iterator's fill carry a requires-lock summary that is checked at every call site; (2) the predecessor-recording search findGE(…, prev=true) is called only with the write lock held; (3) every exported method pairs its lock on every exit and iterator methods test Released() first and re-acquire the read lock on every step; (4) Put copies the caller's key/value into the arena and the arena is append-only (readers hold sub-slices of it); (5) the counters: n is incremented only for a new key and decremented only for an existing one, an overwrite repoints the node without touching the links. These are the conditions the concurrent-reader safety argument needs; the skip-list link order, Len/Size arithmetic and iterator results under concurrent inserts are NOT decided.",
 		notCovered:  "skip-list link order and search correctness; Len/Size accounting over all histories; iterator results under concurrent inserts",
 		assumptions: []string{"sync.RWMutex semantics"},
@@ -196,7 +196,10 @@ func runC14(p *Prog, r *Report) {
 		}
 		if fn := resolveFn(p, r, "leveldb/memdb", "(*DB).findGE"); fn != nil {
 			// uses the configured comparer on the stored key vs the probe
-			n := countInstr(fn, func(in ssa.Instruction) bool { c, ok := in.(*ssa.Call); return ok && c.Call.IsInvoke() && c.Call.Method.Name() == "Compare" })
+			n := countInstr(fn, func(in ssa.Instruction) bool {
+				c, ok := in.(*ssa.Call)
+				return ok && c.Call.IsInvoke() && c.Call.Method.Name() == "Compare"
+			})
 			r.Site(1)
 			r.Check(n == 1, fnName(fn), "uses-comparer", "the skip-list search orders keys with the configured comparer", fmt.Sprintf("%d comparer calls", n), p.Pos(fn.Pos()))
 			prev := boolAtom("prev", mParam("prev"))
